@@ -37,6 +37,8 @@ CONSTANTS
   MaxInv,      \* bound on handler invocations
   MaxT,        \* events later than MaxT are not dispatched (run limit)
   FixDrain,    \* TRUE: un-busy keeps starting queued messages while the channel stays idle (repair of D7)
+  Inject,      \* sequence of messages put into the event set from outside before the run (Runtime::handle_message_on /
+               \* add_message_onto): [k |-> "msg", m |-> module] or [k |-> "exit", g |-> start gate], with t, size, eat
   ReplayScripts \* <<>>: handlers choose from the menus; otherwise a sequence of scenarios [module -> sequence of command
                \* lists]: the initial state picks one and every handler invocation executes the next recorded list
 
@@ -197,7 +199,17 @@ RestartAll(W, S, m, t, stage, cs, used) ==
        RestartAll(R.W, R.S, m, t, stage + 1, cs, Append(used, cs[stage + 1]))
 
 -----------------------------------------------------------------------------
-Init == /\ now = 0 /\ fes = {} /\ seq = 0
+(* messages injected from outside before the run, in call order; ids 501, 502, ... *)
+RECURSIVE InjectAll(_, _)
+InjectAll(W, i) ==
+  IF i > Len(Inject) THEN W
+  ELSE LET x == Inject[i]
+           msg == [id |-> 500 + i, size |-> x.size, eat |-> x.eat, from |-> ""]
+           ev == IF x.k = "msg" THEN [k |-> "msg", m |-> x.m, msg |-> msg] ELSE [k |-> "exit", r |-> x.g, pos |-> 0, msg |-> msg] IN
+       InjectAll(AddEv(W, 0, ev, x.t), i + 1)
+
+Init == /\ now = 0
+        /\ LET W == InjectAll([fes |-> {}, seq |-> 0], 1) IN fes = W.fes /\ seq = W.seq
         /\ active = [m \in ModSet |-> TRUE] /\ inc = [m \in ModSet |-> 1] /\ err = {} /\ dead = [m \in ModSet |-> "no"]
         /\ chan = [c \in Chans |-> [busy |-> FALSE, until |-> 0, q |-> <<>>, acc |-> 0]]
         /\ nextMsg = 1 /\ ninv = 0 /\ scripts = [m \in ModSet |-> <<>>] /\ catching = Catch
